@@ -194,6 +194,12 @@ func runC11(tier string, seed uint64) {
 				for i := 0; i < 12; i++ {
 					do(h, Req{Method: "PUT", Path: fmt.Sprintf("/%s/filler-%d", bucket, i), Body: bytes.Repeat([]byte{byte(i)}, 40000)})
 				}
+				// ... and while other clients make ranged reads of their own (of other objects and of this one),
+				// read to the end: a reader's window is its own
+				for i := 0; i < 12; i++ {
+					do(h, Req{Method: "GET", Path: fmt.Sprintf("/%s/filler-%d", bucket, i), Header: [][2]string{{"Range", fmt.Sprintf("bytes=%d-%d", i, i+5+i*2000)}}})
+					do(h, Req{Method: "GET", Path: "/" + bucket + "/obj4097", Header: [][2]string{{"Range", fmt.Sprintf("bytes=%d-%d", 200*i, 200*i+50)}}})
+				}
 				got, rerr := readAllGuarded(o.Contents)
 				o.Contents.Close()
 				want := data[o.Range.Start : o.Range.Start+o.Range.Length]
